@@ -497,16 +497,25 @@ type c27Job struct {
 func TestC27(t *testing.T) {
 	r := vkit.Start(t, "C27", "fault_enumeration")
 	defer r.Finish()
-	r.Rule("case = (config, remote response script); exhaustive part: every script of length <= L (quick 2, thorough 5) over the 12-symbol alphabet {204, timeout, 429, 429+Retry-After:2, 429+Retry-After:0, 400, 401, 404, 413, 500, 503, connection reset} x 3 configs (400 kept / 400 dropped / tiny segments with a late enqueue), after the script the remote accepts everything; sampled part: scripts of length 1-9 over an extended alphabet with 1-5 entries, random late enqueues, max-age purges (fresh and aged) and two 14-failure runs for the 15 min cap; plus 2 runs of the real run() goroutine. SendWrite is called directly; each call is checked against R1 order, R2 removal-only-after-acceptance, R3 returned retry delay, and at the end R4 drain + acceptance order. non-trivial = script contains a non-204 answer; distinct = (config, script)")
+	r.Rule("case = (config, remote response script); exhaustive part: every script of length <= L (quick 2, thorough 4; plus, thorough, every script of length 5 over the 6-symbol core {204, timeout, 429+Retry-After:2, 400, 500, reset}; VERIF_C27_FULL=1: length <= 5 over all 12) over the 12-symbol alphabet {204, timeout, 429, 429+Retry-After:2, 429+Retry-After:0, 400, 401, 404, 413, 500, 503, connection reset} x 3 configs (400 kept / 400 dropped / tiny segments with a late enqueue), after the script the remote accepts everything; sampled part: scripts of length 1-9 over an extended alphabet with 1-5 entries, random late enqueues, max-age purges (fresh and aged) and two 14-failure runs for the 15 min cap; plus 2 runs of the real run() goroutine. SendWrite is called directly; each call is checked against R1 order, R2 removal-only-after-acceptance, R3 returned retry delay, and at the end R4 drain + acceptance order. non-trivial = script contains a non-204 answer; distinct = (config, script)")
 	r.Trust("net/http + httptest as the remote; influx-cli api client (gzip body)", "client timeout is set per request from the scripted answer (15 ms for a silent remote, 30 s otherwise)")
 	r.Assume("documented backoff: 0.5*2^(n-1) s for n earlier consecutive failures, 15 min when n > 10; 429 Retry-After: N>0 -> N s, \"0\" -> 0.5 s, unparsable -> backoff")
 
-	maxLen := r.N(2, 5)
+	// Every case costs ~8 real HTTP round trips through a client that builds a new transport and
+	// TCP connection per request (~10 ms per case under the race detector). All 271 452 scripts of
+	// length <= 5 x 3 configs would take hours; the thorough tier enumerates length <= 4 over the
+	// full alphabet and length 5 over a 6-symbol core. VERIF_C27_FULL=1 runs the full length-5 set.
+	maxLen := r.N(2, 4)
+	core := []string{"204", "timeout", "429ra2", "400", "500", "reset"}
+	fullFive := os.Getenv("VERIF_C27_FULL") == "1"
+	if fullFive && !r.Quick() {
+		maxLen = 5
+	}
 	jobs := make(chan c27Job, 256)
 	var wg sync.WaitGroup
 	var mu sync.Mutex
 	totalReq := 0
-	workers := 14
+	workers := 40
 	for i := 0; i < workers; i++ {
 		w, err := c27NewWorker(r)
 		if err != nil {
@@ -544,6 +553,23 @@ func TestC27(t *testing.T) {
 		}
 	}
 	gen(nil)
+	nCore5 := 0
+	if !r.Quick() && !fullFive {
+		var gen5 func(prefix []string)
+		gen5 = func(prefix []string) {
+			if len(prefix) == 5 {
+				for _, cfg := range c27BaseCfgs {
+					jobs <- c27Job{cfg, append([]string(nil), prefix...)}
+					nCore5++
+				}
+				return
+			}
+			for _, a := range core {
+				gen5(append(prefix, a))
+			}
+		}
+		gen5(nil)
+	}
 	// sampled scripts
 	n := r.N(300, 6000)
 	for i := 0; i < n; i++ {
@@ -581,6 +607,8 @@ func TestC27(t *testing.T) {
 	r.Exhaustive(true)
 	r.Extra("exhaustive_script_len", maxLen)
 	r.Extra("exhaustive_cases", nExh)
+	r.Extra("exhaustive_len5_core_alphabet_cases", nCore5)
+	r.Extra("len5_core_alphabet", core)
 	r.Extra("http_requests", totalReq)
 
 	c27RealLoop(r)
